@@ -42,3 +42,6 @@ pub assume_specification<T, U, F> [std::option::Option::<T>::map_or] (o: std::op
         o is Some ==> call_requires(f, (o->Some_0,)),
     ensures
         match o { Some(t) => call_ensures(f, (t,), r), None => r == default };
+
+pub assume_specification<T> [bool::then_some] (b: bool, t: T) -> (r: std::option::Option<T>)
+    ensures r == (if b { Some(t) } else { None::<T> });
